@@ -540,7 +540,7 @@ void ICACHE_FLASH_ATTR supla_esp_mqtt_conn_on_connect(void *arg) {
         int passwordPartLen =
             strnlen(supla_esp_cfg.Username + usernameLength + 1,
                     SUPLA_EMAIL_MAXSIZE - usernameLength - 1);
-        if (passwordPartLen < SUPLA_EMAIL_MAXSIZE - usernameLength - 1 - 1) {
+        if (passwordPartLen < SUPLA_EMAIL_MAXSIZE - usernameLength - 1) {
           memcpy(password + passwordLen,
                  supla_esp_cfg.Username + usernameLength + 1,
                  passwordPartLen + 1);
